@@ -6,7 +6,10 @@ from . import hashorder, lib2
 
 FORBIDDEN = re.compile(r"SystemTime::now|std::time::Instant::now|thread_rng|rand::random|from_entropy|std::process::id|std::env::var|"
                        r"std::thread::spawn|getrandom|std::fs::|TcpStream|TcpListener|UdpSocket|RandomState::new|tokio::time::(sleep|interval|Instant::now)|"
-                       r"OsRng|std::thread::current|ThreadId")
+                       r"OsRng|std::thread::current|ThreadId|"
+                       # a process-keyed hasher whose *output* is used as a value (placement, bucket, id); hash collections only matter through rule H
+                       r"<ahash::AHasher as std::default::Default>::default|ahash::RandomState::(new|default)|<ahash::RandomState as std::default::Default>::default|"
+                       r"<std::(collections::)?hash(_map)?::RandomState as std::default::Default>::default")
 PRODUCTION = re.compile(r"io::production::|ProductionClock|ProductionTimeSource|ProductionRng|LocalWalStore|LocalFsObjectStore|S3ObjectStore")
 
 # (function id regex, callee regex) -> reason.  Each was read; the effect does not feed the operation trace, final state or verdict.
@@ -94,6 +97,9 @@ def run(ck, ctx):
     ck.rule("R20.5", "fault decisions are a function of the current configuration and the seeded RNG only: in should_buggify* the threshold "
                      "the random draw is compared with comes from FaultConfig::get on the context's current config (or from the probability "
                      "parameter) - never from state that survives set_config (a cache, a counter) - and the draw comes from the RNG argument")
+    ck.rule("R20.6", "no ambient process state: code reachable from a harness reads or writes no `static` that can change at run time "
+                     "(static mut, atomics, locks, cells) and no thread-local other than the BUGGIFY context (which set_config replaces "
+                     "and R20.5 covers); such state outlives a simulation, so a trace would depend on what else ran in the process")
     ck.nd("equality of traces across processes (needs two runs - a different family)")
     ck.assume("trait-dispatched calls inside generic code are not followed: a production implementation can only be dispatched to if its type "
               "is named in reachable code, which R20.1 checks")
@@ -113,6 +119,7 @@ def run(ck, ctx):
         _r203(ck, prog, cfg, seen, built)
         _r204(ck, prog, cfg)
         _r205(ck, prog, cfg)
+        _r206(ck, prog, cfg, seen)
 
 
 def _constructed_commands(prog, seen):
@@ -323,3 +330,59 @@ def _r205(ck, prog, cfg):
                     ck.bad("R20.5", key, "the fault decision compares a value of unrecognised origin (%s: %s): if it can survive a change of "
                            "configuration (cache, counter) the run is no longer a function of seed and configuration" % (s.kind, s.path()[:80]), f.where(st["ln"]))
     ck.floor("R20.5" + _tag(cfg), n, 3)
+
+
+STATIC_OK = [
+    (r"::__CALLSITE$", "tracing's per-call-site interest cache (macro generated): read by the subscriber machinery only, never by the program's data flow"),
+]
+TLS_OK = [
+    (r"^buggify::BUGGIFY_CONTEXT::|^thread_local<std::cell::RefCell<buggify::BuggifyContext>", "the BUGGIFY context: replaced by set_config at the start of a simulation (R20.5 decides what may survive it)"),
+]
+
+
+def _static_refs(node, out):
+    if isinstance(node, dict):
+        if "static" in node and "sfrozen" in node:
+            out.append(("static", node["static"], node["sfrozen"]))
+        if node.get("k") == "tls" and "def" in node:
+            out.append(("tls", node["def"], False))
+        for v in node.values():
+            _static_refs(v, out)
+    elif isinstance(node, list):
+        for v in node:
+            _static_refs(v, out)
+
+
+def _r206(ck, prog, cfg, seen):
+    n = 0
+    ntls = 0
+    for fid in sorted(seen):
+        f = prog.fns[fid]
+        refs = []
+        _static_refs(f.d.get("blocks"), refs)
+        for b, t in f.calls(reachable_only=False):
+            m = None
+            for nm in callee_names(t):
+                m2 = re.search(r"std::thread::LocalKey::<(.*)>::(with|set|get|take|replace|with_borrow|with_borrow_mut|try_with)\b", nm)
+                if m2 and (m is None or m.group(1) == "T"):
+                    m = m2
+            if m:
+                ty = re.sub(r">::(with|set|get|take|replace|with_borrow|with_borrow_mut|try_with).*", "", m.group(1))
+                refs.append(("tls", "thread_local<%s>" % ty, False))
+        for kind, name, frozen in sorted(set(refs)):
+            n += 1
+            if kind == "tls":
+                ntls += 1
+                ok = any(re.search(p, name) for p, _ in TLS_OK)
+                ck.check(ok, "R20.6", "tls:%s%s" % (re.sub(r"::\{.*", "", name), _tag(cfg)),
+                         "thread-local state %s is used in code reachable from a simulation harness (via %s): it survives from one simulation to "
+                         "the next on the same thread, so a run is no longer a function of its seed" % (name, " <- ".join(_path(seen, fid))), f.where())
+                continue
+            if frozen or any(re.search(p, name) for p, _ in STATIC_OK):
+                continue
+            ck.bad("R20.6", "static:%s%s" % (name, _tag(cfg)),
+                   "the mutable static %s is used in %s, reachable from a simulation harness (%s): it is shared by every simulation in the process "
+                   "and outlives each of them, so ids/values derived from it depend on what else ran (or runs concurrently), not on the seed"
+                   % (name, f.short, " <- ".join(_path(seen, fid))), f.where())
+    ck.floor("R20.6-tls" + _tag(cfg), ntls, 1)
+    ck.ok("R20.6", "scan" + _tag(cfg), "%d static/thread-local references in %d reachable functions" % (n, len(seen)))
